@@ -585,6 +585,16 @@ class ThreadWorld(World):
             cfg['client_manager'] = manager
         srv = (server_cls or socketio.Server)(**cfg)
         srv.eio._async = self.driver
+        # the boundary socketio -> engine.io is a pre-emption point (engine.io
+        # itself is trusted and not pre-empted inside, see SimKernel)
+        k = self.kernel
+        for meth in ('send', 'send_packet'):
+            orig = getattr(srv.eio, meth)
+
+            def boundary(*a, _orig=orig, **kw):
+                k.yield_point('eio.' + meth)
+                return _orig(*a, **kw)
+            setattr(srv.eio, meth, boundary)
         self.servers[name] = srv
         self.register_acceptor(name, srv)
         return srv
